@@ -227,6 +227,34 @@ Definition prefix_verdict (move : bool) (from path : list byte) : verdict :=
    (Original code: false — it returned 0 before looking at the document.) *)
 Definition same_location_needs_lookup : bool := true.
 
+(* json_patch_apply_move_copy once from_s and path are strings *)
+Definition move_copy_strings (al : alloc) (doc : jv) (from_s p : list byte) (move : bool) : opres :=
+  match prefix_verdict move from_s p with
+  | VChild => OErr EINVAL doc
+  | v =>
+      let same := match v with VSame => true | _ => false end in
+      if same && negb same_location_needs_lookup then OOk doc else
+      match ptr_get_internal doc from_s with
+      | GIErr e => OErr e doc
+      | GIOk from =>
+          if same then OOk doc
+          else if move then
+            match remove_result doc from with
+            | None => OErr E_NONE doc          (* rc < 0 returned as it is: errno_code still 0 *)
+            | Some doc1 =>
+                match ptr_set_with_array_cb move_cb al doc1 p (r_obj from) with
+                | SOk doc' => OOk doc'
+                | SErr e => OErr e doc1        (* the source location is already gone *)
+                end
+            end
+          else
+            match ptr_set_with_array_cb (insert_idx_cb true) al doc p (placed_value (r_obj from)) with
+            | SOk doc' => OOk doc'
+            | SErr e => OErr e doc
+            end
+      end
+  end.
+
 Definition apply_move_copy (al : alloc) (doc elem : jv) (path : option (list byte)) (move : bool) : opres :=
   match field elem s_from with
   | None => OErr EINVAL doc
@@ -237,32 +265,7 @@ Definition apply_move_copy (al : alloc) (doc elem : jv) (path : option (list byt
       | FStr from_s =>
           match path with
           | None => move_null_path doc
-          | Some p =>
-              match prefix_verdict move from_s p with
-              | VChild => OErr EINVAL doc
-              | v =>
-                  let same := match v with VSame => true | _ => false end in
-                  if same && negb same_location_needs_lookup then OOk doc else
-                  match ptr_get_internal doc from_s with
-                  | GIErr e => OErr e doc
-                  | GIOk from =>
-                      if same then OOk doc
-                      else if move then
-                        match remove_result doc from with
-                        | None => OErr E_NONE doc          (* rc < 0 returned as it is: errno_code still 0 *)
-                        | Some doc1 =>
-                            match ptr_set_with_array_cb move_cb al doc1 p (r_obj from) with
-                            | SOk doc' => OOk doc'
-                            | SErr e => OErr e doc1        (* the source location is already gone *)
-                            end
-                        end
-                      else
-                        match ptr_set_with_array_cb (insert_idx_cb true) al doc p (placed_value (r_obj from)) with
-                        | SOk doc' => OOk doc'
-                        | SErr e => OErr e doc
-                        end
-                  end
-              end
+          | Some p => move_copy_strings al doc from_s p move
           end
       end
   end.
